@@ -22,6 +22,7 @@ saved one end to end (only reported when no hook explains the difference).
 """
 import collections
 import io
+import numpy as np
 import itertools
 import os
 import tempfile
@@ -590,6 +591,10 @@ def notes_order_safe(snap, track_of, mpq, ppq, merged):
             return "overlap"
         if all(max(a[1]) < min(b[0]) for a, b in zip(s, s[1:])):      # any list order: no two events share a tick
             continue
+        if not several_tracks and all(max(a[0]) < min(b[0]) for a, b in zip(s, s[1:])):
+            # one written track, the notes begin on different ticks: the end of the earlier note and the beginning of the
+            # later one may share a tick, and the file must still denote two notes whatever the order of the list
+            continue
         verdict = "equal-tick-order"
     return verdict
 
@@ -602,12 +607,42 @@ def check_roundtrip(ctx, snap, perf, spec_w, mpq, ppq, merge_save, merge_load):
         ctx.ambiguous()
         ctx.extra["non_contiguous_track_numbers(judged by rank)"] += 1
     track_of = {t: (0 if merged else j) for j, t in enumerate(tracks)}
+    # a part that holds signatures / meta events only (a conductor track of its own): the reader builds performed parts
+    # from tracks with notes, controls or programs, so such a part does not come back and the later tracks move up
+    # (open known finding); the other parts are judged by their rank among the tracks that do come back
+    empty_parts = [i for i, p in enumerate(snap["parts"]) if not (p["notes"] or p["controls"] or p["programs"])
+                   and (p["keys"] or p["times"] or [m for m in p["metas"] if m[0] != "end_of_track"])]
+    conductor_tracks = set()
+    if empty_parts and not merged:
+        other = set()
+        for i, p in enumerate(snap["parts"]):
+            if i not in empty_parts:
+                other |= {n[3] for n in p["notes"]} | {c[3] for c in p["controls"]} | {c[2] for c in p["programs"]} | \
+                    {c[2] for c in p["keys"]} | {c[2] for c in p["times"]} | {c[2] for c in p["metas"]}
+        for i in empty_parts:
+            p = snap["parts"][i]
+            conductor_tracks |= ({c[2] for c in p["keys"]} | {c[2] for c in p["times"]} | {c[2] for c in p["metas"]}) - other
+        if conductor_tracks:
+            lost = [jsonable(x) for i in empty_parts for x in (snap["parts"][i]["keys"] + snap["parts"][i]["times"])[:2]]
+            ctx.check()
+            n_back = len(perf.performedparts)
+            if n_back == len(tracks) - len(conductor_tracks):
+                ctx.violation("roundtrip:part-without-notes-dropped-on-load",
+                              f"a performed part holding only signatures/meta events (tracks {sorted(conductor_tracks)}) does not come back: "
+                              f"{len(tracks)} tracks saved, {n_back} loaded; lost e.g. {lost[:2]}",
+                              dict(spec_w, conductor_tracks=sorted(conductor_tracks)))
+                kept = [t_ for t_ in tracks if t_ not in conductor_tracks]
+                track_of = {t_: j for j, t_ in enumerate(kept)}
+            else:
+                conductor_tracks = set()
     got = loaded_flat(perf, mpq, ppq)
     safe = notes_order_safe(snap, track_of, mpq, ppq, merged)
     A = MM.allowed_ticks
     exp = collections.defaultdict(list)
     defaults = set()
-    for p in snap["parts"]:
+    for pi_, p in enumerate(snap["parts"]):
+        if conductor_tracks and pi_ in empty_parts:
+            continue
         for pitch, vel, ch, tr, on, off in p["notes"]:
             exp["notes"].append(((pitch, vel, ch, track_of[tr]), tuple(itertools.product(A(on, mpq, ppq), A(off, mpq, ppq))),
                                  {"midi_pitch": pitch, "velocity": vel, "channel": ch, "track": tr, "note_on": on, "note_off": off}))
@@ -700,7 +735,7 @@ def run_rt_case(ctx, spec, tmp, tag):
     mpq, ppq = spec["mpq"], spec["ppq"]
     n_notes = sum(len(p["notes"]) for p in spec["parts"])
     n_ctrl = sum(len(p["controls"]) for p in spec["parts"])
-    tracks = sorted({e["track"] for p in spec["parts"] for k in p for e in p[k]})
+    tracks = sorted({e.get("track", 0) for p in spec["parts"] for k in p for e in p[k]})
     merged = spec["merge_save"] or spec["merge_load"]
     nontrivial = n_notes >= 2 and n_ctrl >= 1 and (len(tracks) >= 2 or merged or (ppq, mpq) != (480, 500000))
     ctx.case(["rt", spec], nontrivial, cls=f"roundtrip-{spec['kind']}" + (f"-{spec['hostile']}" if spec.get("hostile") else ""),
@@ -717,7 +752,7 @@ def run_rt_case(ctx, spec, tmp, tag):
         obj = ctx.call(gen_perf.build_performance, spec)
         snap = snap_perf(obj)
         path = os.path.join(tmp, f"{tag}.mid")
-        kw = dict(mpq=mpq, ppq=ppq, merge_tracks_save=spec["merge_save"])
+        kw = dict(mpq=mpq, ppq=(np.int32(ppq) if spec.get("np_ppq") else ppq), merge_tracks_save=spec["merge_save"])
         if spec["out"] == "none":
             src = ctx.call(save_performance_midi, obj, None, **kw)
         elif spec["out"] == "bytes":
@@ -976,7 +1011,7 @@ def run_item(ctx, item):
                 if kind == "rd":
                     spec = gen_perf.make_midi_spec(rng, size=size)
                 else:
-                    hostile = rng.choice(["shuffle", "shuffle", "gaps", "shared"]) if kind == "rth" else None
+                    hostile = rng.choice(["shuffle", "shuffle", "gaps", "shared", "untracked", "conductor"]) if kind == "rth" else None
                     spec = gen_perf.make_perf_spec(rng, size=size, hostile=hostile)
                 run_case(ctx, kind, spec, tmp, f"{kind}{item[1]}-{j}")
         elif kind == "adj":
